@@ -1567,6 +1567,7 @@ func (enc *VP8Encoder) recordAllTokens(stats *ProbaStats) {
 		}
 
 		if info.Skip {
+			enc.tokens.MarkMBStart(mbIdx) // empty token range (see encodeFrame)
 			enc.numSkip++
 			enc.topNz[it.X] = 0
 			enc.leftNz = 0
